@@ -479,8 +479,10 @@ func (c *Ctx) mintCases(s *jwtSetup, t0 time.Time) {
 		if c.chance(0.8) {
 			a.Subject = &saml.Subject{}
 			if c.chance(0.85) {
-				v := c.pick("alice", "bob@example.com", "", "ünï")
-				a.Subject.NameID = &saml.NameID{Value: v}
+				v := c.pick("alice", "bob@example.com", "", "ünï", "Bob.Smith@Example.COM", "ALICE", " alice ")
+				// the NameID's format and qualifiers say how the IdP names the subject: the subject exposed is the value as it stands
+				a.Subject.NameID = &saml.NameID{Value: v, Format: c.pick("", "", "urn:oasis:names:tc:SAML:1.1:nameid-format:emailAddress", "urn:oasis:names:tc:SAML:2.0:nameid-format:persistent",
+					"urn:oasis:names:tc:SAML:2.0:nameid-format:transient", "urn:oasis:names:tc:SAML:1.1:nameid-format:unspecified"), NameQualifier: c.pick("", "", "idp-q"), SPNameQualifier: c.pick("", "", "sp-q")}
 				nid = []string{"+", encStr(v)}
 			}
 		}
